@@ -33,6 +33,8 @@ type World struct {
 	AllFuncs []*ssa.Function
 	cg       *callgraph.Graph
 	consts   map[string]map[string]string // type string -> const exact value -> qualified short name
+	inline   map[*ssa.Function]*frame
+	invoked  map[string]bool
 }
 
 func repoDir() string {
